@@ -321,8 +321,8 @@ func visitInstr(fr *frame, instr ssa.Instruction) continuation {
 		*addr = zero(deref(instr.Type()))
 
 	case *ssa.MakeSlice:
-		n := e.concreteInt(fr.get(instr.Len), 0, 1<<40)
-		c := e.concreteInt(fr.get(instr.Cap), 0, 1<<40)
+		n := e.concreteSize(fr.get(instr.Len))
+		c := e.concreteSize(fr.get(instr.Cap))
 		if n < 0 || n > c {
 			panic(rtPanic{"runtime error: makeslice: len out of range"})
 		}
